@@ -231,3 +231,41 @@ def witness_setext_forward_reference():
     import mistletoe
     out = mistletoe.markdown('[foo]\n===\n\n[foo]: /url\n')
     return 'href="/url"' not in out, "markdown('[foo]\\n===\\n\\n[foo]: /url') = %r" % out
+
+
+class _Root:
+    def __init__(self):
+        self.footnotes = {}
+
+
+@lemma('R3.read-cursor', 'C07', quick=[{'hole': h, 'sk': i, 'k': k} for h in 'DT' for i in range(len(R3_SKELETONS[h])) for k in (1, 2)],
+       thorough=[{'hole': h, 'sk': i, 'k': k} for h in 'DTL' for i in range(len(R3_SKELETONS[h])) for k in (1, 2, 3)], timeout=900, per_path=90,
+       covers=['block_token.py:Footnote.read', 'block_token.py:Footnote.match_reference', 'block_tokenizer.py:FileWrapper.get_pos'],
+       note="the same skeletons followed by a non-definition line 'bar': whenever the reference scanner finds a definition, Footnote.read leaves the cursor on the last line of that definition "
+            '(so that the following line is parsed as a block of its own, and no line of the definition is parsed again)')
+def r3_read_cursor(c1: int, c2: int, c3: int) -> bool:
+    """
+    pre: all_in(R3_ALPH, P('k'), c1, c2, c3)
+    pre: no_blank_line(R3_SKELETONS[P('hole')][P('sk')].format(S(P('k'), c1, c2, c3)))
+    post: _
+    """
+    from vfy.ref import linkdef
+    from mistletoe import block_tokenizer as btk
+    s = R3_SKELETONS[P('hole')][P('sk')].format(S(P('k'), c1, c2, c3)) + 'bar\n'
+    ref = linkdef.parse_definition(s)
+    if ref is None:
+        return True
+    label, dest, title, end = ref
+    if linkdef.parse_definition(s[end:]) is not None:
+        return True                       # a second definition follows: only the single-definition case is asserted
+    lines = s.split('\n')[:-1]
+    lines = [ln + '\n' for ln in lines]
+    fw = btk.FileWrapper(lines)
+    tokmod._root_node = _Root()
+    try:
+        res = bt.Footnote.read(fw)
+    finally:
+        tokmod._root_node = None
+    if not res or len(res) != 1:
+        return False
+    return fw._index + 1 == s[:end].count('\n')
